@@ -110,6 +110,16 @@ fn write_project(p: &Project, rng: &mut Rng, identity: bool) -> Vec<String> {
   let unames = if identity { vec!["g1.yml", "g2.yml"] } else { permute(&["g1.yml", "g2.yml"], rng) };
   p.write(&format!("utils/{}", unames[0]), br#"{"id": "gA", "language": "JavaScript", "rule": {"any": [{"matches": "gB"}, {"kind": "number"}]}}"#);
   p.write(&format!("utils/{}", unames[1]), br#"{"id": "gB", "language": "JavaScript", "rule": {"kind": "call_expression"}}"#);
+  // a local utility that names another one inside a relational rule carrying more keys (`has: {field, regex, matches}`):
+  // whichever of the two is built first, the reference finds its referent
+  let u8o = if identity { vec![0, 1] } else { permute(&[0, 1], rng) };
+  let u8_items = [
+    ("vA", r#"{"kind": "call_expression", "has": {"field": "function", "regex": "^(glob|baz)", "matches": "vB"}}"#.to_string()),
+    ("vB", r#"{"kind": "identifier"}"#.to_string()),
+  ];
+  let u8_obj = obj(&u8o.iter().map(|i| u8_items[*i].clone()).collect::<Vec<_>>());
+  let r8 = format!(r#"{{"id": "r8", "language": "JavaScript", "severity": "info", "message": "callee", "rule": {{"matches": "vA"}}, "utils": {u8_obj}}}"#);
+  p.write("rules/r8.yml", r8.as_bytes());
   // a global utility that reaches another one only through one of its LOCAL utilities, and a rule whose kinds come from
   // it alone: the order in which the global utilities are registered must not show
   p.write("utils/g3.yml", br#"{"id": "gC", "language": "JavaScript", "rule": {"matches": "loc"}, "utils": {"loc": {"any": [{"matches": "gB"}, {"kind": "string"}]}}}"#);
